@@ -392,7 +392,7 @@ package runtime
 //@ exits separate
 //@ props C01 C03
 //@ loop 1
-//@ invariant wfTask(ctx) && oldsame(Stack.Data)
+//@ invariant wfTask(ctx) && oldsame(Stack.Data) && (old(ctx.procExit) ==> ctx.procExit)
 //@ invariant fresh(ctx.stackCur) && ctx.stackCur.Before == old(ctx.stackCur) && ctx.stackCur.depth == old(ctx.stackCur.depth) + 1
 
 //@ func RunForStmt
@@ -400,7 +400,7 @@ package runtime
 //@ exits separate
 //@ props C01 C03
 //@ loop 1
-//@ invariant wfTask(ctx) && oldsame(Stack.Data)
+//@ invariant wfTask(ctx) && oldsame(Stack.Data) && (old(ctx.procExit) ==> ctx.procExit)
 //@ invariant fresh(ctx.stackCur) && ctx.stackCur.Before == old(ctx.stackCur) && ctx.stackCur.depth == old(ctx.stackCur.depth) + 1
 
 //@ func RunForInStmt
@@ -408,15 +408,15 @@ package runtime
 //@ exits separate
 //@ props C01 C03
 //@ loop 1
-//@ invariant wfTask(ctx) && oldsame(Stack.Data)
+//@ invariant wfTask(ctx) && oldsame(Stack.Data) && (old(ctx.procExit) ==> ctx.procExit)
 //@ invariant fresh(ctx.stackCur) && fresh(ctx.stackCur.Before) && ctx.stackCur.Before != nil && ctx.stackCur.Before.Before == old(ctx.stackCur)
 //@ invariant ctx.stackCur.depth == old(ctx.stackCur.depth) + 2 && ctx.stackCur.Before.Data != nil
 //@ loop 2
-//@ invariant wfTask(ctx) && oldsame(Stack.Data)
+//@ invariant wfTask(ctx) && oldsame(Stack.Data) && (old(ctx.procExit) ==> ctx.procExit)
 //@ invariant fresh(ctx.stackCur) && fresh(ctx.stackCur.Before) && ctx.stackCur.Before != nil && ctx.stackCur.Before.Before == old(ctx.stackCur)
 //@ invariant ctx.stackCur.depth == old(ctx.stackCur.depth) + 2 && ctx.stackCur.Before.Data != nil
 //@ loop 3
-//@ invariant wfTask(ctx) && oldsame(Stack.Data)
+//@ invariant wfTask(ctx) && oldsame(Stack.Data) && (old(ctx.procExit) ==> ctx.procExit)
 //@ invariant fresh(ctx.stackCur) && fresh(ctx.stackCur.Before) && ctx.stackCur.Before != nil && ctx.stackCur.Before.Before == old(ctx.stackCur)
 //@ invariant ctx.stackCur.depth == old(ctx.stackCur.depth) + 2 && ctx.stackCur.Before.Data != nil
 
@@ -437,13 +437,13 @@ package runtime
 //@ like RunStmt
 //@ props C01 C04
 //@ loop 1
-//@ invariant wfTask(ctx) && ctx.stackCur == old(ctx.stackCur) && oldsame(Stack.Data)
+//@ invariant wfTask(ctx) && ctx.stackCur == old(ctx.stackCur) && oldsame(Stack.Data) && (old(ctx.procExit) ==> ctx.procExit)
 
 //@ func RunMapInitExpr
 //@ like RunStmt
 //@ props C01 C04
 //@ loop 1
-//@ invariant wfTask(ctx) && ctx.stackCur == old(ctx.stackCur) && oldsame(Stack.Data)
+//@ invariant wfTask(ctx) && ctx.stackCur == old(ctx.stackCur) && oldsame(Stack.Data) && (old(ctx.procExit) ==> ctx.procExit)
 
 //@ func RunIndexExprGet
 //@ like RunStmt
@@ -453,7 +453,7 @@ package runtime
 //@ like RunStmt
 //@ props C01 C04
 //@ loop 1
-//@ invariant wfTask(ctx) && ctx.stackCur == old(ctx.stackCur) && oldsame(Stack.Data)
+//@ invariant wfTask(ctx) && ctx.stackCur == old(ctx.stackCur) && oldsame(Stack.Data) && (old(ctx.procExit) ==> ctx.procExit)
 
 //@ func RunParenExpr
 //@ like RunStmt
@@ -487,7 +487,7 @@ package runtime
 //@ props C01 C04
 //@ requires wfVal(val, dtype)
 //@ loop 1
-//@ invariant wfTask(ctx) && ctx.stackCur == old(ctx.stackCur) && oldsame(Stack.Data)
+//@ invariant wfTask(ctx) && ctx.stackCur == old(ctx.stackCur) && oldsame(Stack.Data) && (old(ctx.procExit) ==> ctx.procExit)
 
 //@ func RunCallExpr
 //@ like RunStmt
@@ -630,3 +630,93 @@ package runtime
 //@ ensures[C02] lhsE() == nil && rhsE() == nil && rhsT() == ast.String && lhsT() == ast.String ==> result2 == nil && result1 == ast.Bool && typeis(result0, bool)
 //@ | && ncalls(strings.Contains) == 1 && callarg(strings.Contains, 0, 0) == rhsV().(string) && callarg(strings.Contains, 0, 1) == lhsV().(string) && result0.(bool) == callres(strings.Contains, 0, 0)
 //@ ensures[C02] lhsE() == nil && rhsE() == nil && rhsT() == ast.List ==> result2 == nil && result1 == ast.Bool && typeis(result0, bool)
+
+// ---------------------------------------------------------------------------
+// C03 / C13 / C14: truthiness, statement sequencing and the exit / break / continue flags
+
+//@ func condTrue
+//@ ensures[C03] dtype == ast.String && typeis(val, string) ==> result == (len(val.(string)) > 0)
+//@ ensures[C03] dtype == ast.Bool && typeis(val, bool) ==> result == val.(bool)
+//@ ensures[C03] dtype == ast.Int && typeis(val, int64) ==> result == (val.(int64) != 0)
+//@ ensures[C03] dtype == ast.Float && typeis(val, float64) ==> result == !(val.(float64) == 0.0)
+//@ ensures[C03] dtype == ast.List && typeis(val, []any) ==> result == (len(val.([]any)) > 0)
+//@ ensures[C03] dtype == ast.Map && typeis(val, map[string]any) ==> result == (len(val.(map[string]any)) > 0)
+//@ ensures[C03] dtype == ast.Nil || dtype == ast.Void || dtype == ast.Invalid ==> !result
+
+//@ spec flagsClear(ctx *Task) bool = !ctx.procExit && !ctx.loopBreak && !ctx.loopContinue
+
+//@ func RunStmts
+// a block is entered only while the script has not exited
+//@ requires[C13,C14] !ctx.procExit
+// statements run in order, each once; the next one starts only while no exit / break /
+// continue is pending; an error marks the task as exited
+//@ ensures[C03,C13,C14] forall k mathint :: 0 <= k && k < ncalls(RunStmt) ==> callarg(RunStmt, k, 1) == nodes[toint(k)]
+//@ ensures[C03,C13,C14] ncalls(RunStmt) <= tomath(len(nodes))
+//@ ensures[C03,C13,C14] result == nil && flagsClear(ctx) ==> ncalls(RunStmt) == tomath(len(nodes))
+//@ ensures[C13,C14] result != nil ==> ctx.procExit
+//@ ensures[C13,C14] old(ctx.procExit) ==> ctx.procExit
+//@ loop 1
+//@ invariant[C03,C13,C14] ncalls(RunStmt) == tomath(rangeindex) + 1
+//@ invariant[C03,C13,C14] forall k mathint :: 0 <= k && k < ncalls(RunStmt) ==> callarg(RunStmt, k, 1) == nodes[toint(k)]
+//@ invariant[C13,C14] rangeindex >= 0 ==> flagsClear(ctx)
+//@ invariant[C13,C14] !ctx.procExit
+//@ invariant[C13,C14] old(ctx.procExit) ==> ctx.procExit
+
+//@ func RunStmt
+// a statement (as opposed to an expression operand) starts only while the script has not exited
+//@ ownrequires[C13,C14] ast.isStmtKind(node) ==> !ctx.procExit
+//@ ensures[C13,C14] old(ctx.procExit) ==> ctx.procExit
+
+//@ func RunIfElseStmt
+//@ requires[C13,C14] !ctx.procExit
+//@ loop 1
+//@ invariant[C13,C14] !ctx.procExit
+//@ func RunForStmt
+//@ requires[C13,C14] !ctx.procExit
+//@ loop 1
+//@ invariant[C13,C14] !ctx.procExit
+//@ func RunForInStmt
+//@ requires[C13,C14] !ctx.procExit
+//@ loop 1
+//@ invariant[C13,C14] !ctx.procExit
+//@ loop 2
+//@ invariant[C13,C14] !ctx.procExit
+//@ loop 3
+//@ invariant[C13,C14] !ctx.procExit
+
+//@ functype FuncCall
+//@ ensures[C13,C14] old(ctx.procExit) ==> ctx.procExit
+
+//@ func RunBreakStmt
+//@ ensures[C03] ctx.loopBreak && result2 == nil
+
+//@ func RunContinueStmt
+//@ ensures[C03] ctx.loopContinue && result2 == nil
+
+// a for-in statement whose body ran never leaks a pending break / continue to the enclosing block
+//@ func RunForInStmt
+//@ ensures[C03] result2 == nil && ncalls(RunStmts) >= 1 ==> !ctx.loopBreak && !ctx.loopContinue
+//@ loop 1
+//@ invariant[C03] ncalls(RunStmts) >= 1 ==> !ctx.loopBreak && !ctx.loopContinue
+//@ loop 2
+//@ invariant[C03] ncalls(RunStmts) >= 1 ==> !ctx.loopBreak && !ctx.loopContinue
+//@ loop 3
+//@ invariant[C03] ncalls(RunStmts) >= 1 ==> !ctx.loopBreak && !ctx.loopContinue
+
+// after exit() (or an observed cancellation) nothing further is evaluated: every trip
+// around a loop starts with the exit flag clear
+//@ func RunForStmt
+//@ loop 1
+//@ invariant[C13,C14] ncalls((*Task).StmtRetrun) >= 1 ==> !ctx.procExit
+//@ func RunForInStmt
+//@ loop 1
+//@ invariant[C13,C14] ncalls((*Task).StmtRetrun) >= 1 ==> !ctx.procExit
+//@ loop 2
+//@ invariant[C13,C14] ncalls((*Task).StmtRetrun) >= 1 ==> !ctx.procExit
+//@ loop 3
+//@ invariant[C13,C14] ncalls((*Task).StmtRetrun) >= 1 ==> !ctx.procExit
+
+//@ func searchListAndMap
+//@ requires[C13,C14] forall i :: 0 <= i && i < len(index) ==> !ast.isStmtKind(index[i])
+//@ func changeListOrMapValue
+//@ requires[C13,C14] forall i :: 0 <= i && i < len(index) ==> !ast.isStmtKind(index[i])
